@@ -54,7 +54,7 @@ func c06(r *hx.Run) {
 	fx.Quiet()
 	client, v := stdClient()
 	delta := v.P.MaxOperationTimeDelta
-	r.Rule = "for every history of <=3 (thorough: <=4 over a sub-alphabet) anchored operations (legitimate alphabet, published and unpublished, non-monotone coordinates) x every cut time T in {pre-epoch, 0..maxTime+1} (each also spelled with UTC offsets +05:00 / -03:30 / +00:00 and with fractional seconds: same cut) x every version id present or unknown x every single later-anchored extension (placed in the store, and passed by the caller through WithAdditionalOperations before and after the version option; every cut also with unset (nil) options around the version option; every version-id cut also with each published operation of the history moved from the store into WithAdditionalOperations): Resolve(history, WithVersionTime/WithVersionID) on the real processor must equal Resolve over the truncated history on the real processor (metamorphic) and the reference model; unknown version id / empty truncation must be an error. The same cuts go through the REST resolve handler (versionId / versionTime / both) for two histories, addressed by the short-form and by the long-form DID: status and document must agree with the processor view (an unknown version of an anchored DID is an error in both forms). Non-trivial: the cut removes at least one and keeps at least one operation."
+	r.Rule = "for every history of <=3 (thorough: <=4 over a sub-alphabet) anchored operations (legitimate alphabet, published and unpublished, non-monotone coordinates) x every cut time T in {pre-epoch, 0..maxTime+1} (each also spelled with UTC offsets +05:00 / -03:30 / +00:00 and with fractional seconds: same cut) x every version id present or unknown x every single later-anchored extension (placed in the store, and passed by the caller through WithAdditionalOperations before and after the version option; every cut also with unset (nil) options around the version option; every version-id cut also with each published operation of the history moved from the store into WithAdditionalOperations): Resolve(history, WithVersionTime/WithVersionID) on the real processor must equal Resolve over the truncated history on the real processor (metamorphic) and the reference model; after a cut resolution on one processor instance the store is made to fail: the next resolution is an error or the current state, never the earlier cut; unknown version id / empty truncation must be an error. The same cuts go through the REST resolve handler (versionId / versionTime / both) for two histories, addressed by the short-form and by the long-form DID: status and document must agree with the processor view (an unknown version of an anchored DID is an error in both forms). Non-trivial: the cut removes at least one and keeps at least one operation."
 	pool := fx.NewPool(fx.Ed25519, fx.SHA256, "ok")
 	alpha := []string{"C", "C~h", "U01", "U01b", "U12", "U01~w", "U01~p", "R01", "R12", "V01", "D0", "D1", "Fc(U01)", "U10"}
 	grid := []Coord{{1, 0}, {1, 2}, {2, 0}, {2, 1}, {3, 0}}
@@ -106,6 +106,31 @@ func c06(r *hx.Run) {
 								fmt.Sprintf("history %v: versionTime %s and %s name the same second but resolve differently\n  %s: %s\n  %s: %s", placedDesc(placed), ts, sp, ts, got.R, sp, gotSp.R), nil)
 						}
 						r.Eval()
+					}
+				}
+				// one processor instance, then the operation store starts failing: a resolution during the outage is an error (or,
+				// should an implementation remember operations, the right answer) - never the view of the earlier cut
+				if T >= 0 && len(kept) > 0 && len(kept) < len(placed) {
+					fs := &c06FlakyStore{}
+					for _, pl := range placed {
+						if pl.Published {
+							fs.ops = append(fs.ops, pl.Anchored(pool.Suffix))
+						}
+					}
+					allPublished := len(fs.ops) == len(placed)
+					if allPublished {
+						proc := processor.New("verif", fs, client)
+						_, _ = proc.Resolve(pool.Suffix, document.WithVersionTime(ts))
+						fs.fail = true
+						rmF, errF := proc.Resolve(pool.Suffix)
+						r.Eval()
+						if errF == nil {
+							full := projectHist(ResolveImpl(client, pool.Suffix, placed))
+							if gotF := projectHist(rmF, errF); gotF != full {
+								r.Violation("store-outage-serves-earlier-cut:"+diffFields(gotF.R, full.R), caseID+"|outage",
+									fmt.Sprintf("history %v: after a resolution at versionTime %s the store fails; the next resolution (no version option) returned a result that is not the current state\n  got    : %s\n  current: %s", placedDesc(placed), ts, gotF.R, full.R), nil)
+							}
+						}
 					}
 				}
 				if len(placed) > 1 {
@@ -303,6 +328,19 @@ func sidetreeOrder(placed []fx.Placed) []fx.Placed {
 		return a.Num < b.Num
 	})
 	return out
+}
+
+// c06FlakyStore is an operation store that can be switched to failing.
+type c06FlakyStore struct {
+	ops  []*operation.AnchoredOperation
+	fail bool
+}
+
+func (s *c06FlakyStore) Get(string) ([]*operation.AnchoredOperation, error) {
+	if s.fail {
+		return nil, fmt.Errorf("connection refused")
+	}
+	return s.ops, nil
 }
 
 // c06Spellings returns other RFC 3339 spellings of the second T: two non-zero UTC offsets, +00:00 and fractional seconds.
